@@ -305,7 +305,7 @@ func (im *Impl) indexByContent(tx *types.Transaction) int {
 
 // Op is one pool operation.
 type Op struct {
-	Kind    string `json:"kind"`              // add | pack | mark | unmark | get | exist
+	Kind    string `json:"kind"`              // add | pack | mark | unmark | get | exist | tick (one age tick of the pending container)
 	Tx      int    `json:"tx,omitempty"`      // add, get, exist: transaction index (get/exist: -1 = absent hash)
 	K       int    `json:"k,omitempty"`       // pack: state index
 	Txs     []int  `json:"txs,omitempty"`     // mark: the block's transactions, block order
@@ -364,6 +364,7 @@ type Obs struct {
 	Batch   []int  `json:"batch,omitempty"`   // pack: universe indexes in batch order (-1 = foreign object)
 	HashOK  bool   `json:"hashOk,omitempty"`  // get: returned transaction has the requested hash
 	NoBlock bool   `json:"noBlock,omitempty"` // unmark with an empty chain: nothing called
+	NoHook  bool   `json:"noHook,omitempty"`  // tick: the repository under test has no VerifAgeTick hook
 }
 
 func (o Obs) String(u *Universe) string {
@@ -464,6 +465,16 @@ func (o Op) Apply(im *Impl) Obs {
 			obs.HashOK = tx != nil && tx.Hash == h
 		case "exist":
 			obs.OK = im.Pool.IsExisted(im.hashOf(o.Tx))
+		case "tick":
+			// what the container's ticker goroutine starts once a minute (simpleContainer.growRing),
+			// reached through the add-only hook (*TxPool).VerifAgeTick; looked up dynamically so that
+			// the harness also builds against a checkout without the hook
+			t, ok := interface{}(im.Pool).(interface{ VerifAgeTick() })
+			if !ok {
+				obs.NoHook = true
+				return
+			}
+			t.VerifAgeTick()
 		default:
 			panic("harness: unknown op " + o.Kind)
 		}
@@ -476,6 +487,12 @@ func (o Op) Apply(im *Impl) Obs {
 		}
 	}
 	return obs
+}
+
+// TickAvailable reports whether the repository under test exports the age tick.
+func TickAvailable() bool {
+	_, ok := interface{}((*service.TxPool)(nil)).(interface{ VerifAgeTick() })
+	return ok
 }
 
 // Dump is the canonical dump of the implementation state.
